@@ -8,6 +8,10 @@
  *   pbkdf2 <passwd> <salt> <c hex> <dkLen>           PBKDF2_SHA256                    -> ok <bytes> -
  *   xform-sha256|xform-sha1|xform-md5 <state> <block>  one block through Update on a context whose
  *                                                    public state words were set by hand -> ok <state> -
+ *   resume-sha256|resume-sha1|resume-md5 <state> <c0 hex> <c1 hex> <buf 64 bytes> <part>*
+ *        the whole public context struct is written by hand (sha256: count = c0, c1 ignored;
+ *        sha1/md5: count[0] = c0, count[1] = c1), then one Update per part, then Final
+ *        -> ok <digest>/<64-bit bit count after each Update, 16 hex digits>/... z|nz
  * z = after Final every byte of the real context object is zero (the object is filled with 0xAA
  * before Init so that a missing wipe cannot go unnoticed).
  */
@@ -80,6 +84,31 @@ static void get_words_be(const uint8_t * b, uint32_t * w, size_t nw)
 		w[i] = ((uint32_t)b[4*i] << 24) | ((uint32_t)b[4*i+1] << 16) | ((uint32_t)b[4*i+2] << 8) | b[4*i+3];
 }
 
+#define RESUME(CTX, NW, SETCOUNT, GETCOUNT, UPDATE, FINAL, DLEN)			\
+	do {										\
+		size_t sl, bl; uint8_t * st = drv_unhex(tok[1], &sl, 0);		\
+		uint8_t * bf = drv_unhex(tok[4], &bl, 0);				\
+		uint64_t c0 = strtoull(tok[2], NULL, 16), c1 = strtoull(tok[3], NULL, 16);	\
+		CTX * c = malloc(sizeof(CTX)); uint8_t * dg = malloc(DLEN); int k;	\
+		if (sl != 4 * (NW) || bl != 64) { printf("bad-case\n"); free(st); free(bf); free(c); free(dg); break; } \
+		memset(c, 0xAA, sizeof(CTX));						\
+		get_words_be(st, c->state, NW); memcpy(c->buf, bf, 64); SETCOUNT;	\
+		(void)c0; (void)c1;							\
+		printf("ok ");								\
+		{ char * save = malloc(17 * (size_t)n + 1); size_t pos = 0;		\
+		for (k = 5; k < n; k++) {						\
+			size_t l; uint8_t * p = drv_unhex(tok[k], &l, 0);		\
+			UPDATE(c, p, l);						\
+			pos += (size_t)sprintf(save + pos, "/%016llx", (unsigned long long)(GETCOUNT)); \
+			free(p);							\
+		}									\
+		save[pos] = 0;								\
+		FINAL(dg, c);								\
+		drv_puthex(dg, DLEN); printf("%s %s\n", save, zflag(c, sizeof(CTX)));	\
+		free(save); }								\
+		free(st); free(bf); free(c); free(dg);					\
+	} while (0)
+
 int main(void)
 {
 	char * line; char ** tok = NULL; size_t tokcap = 0;
@@ -140,7 +169,15 @@ int main(void)
 			} else
 				printf("bad-case\n");
 			free(st); free(blk);
-		} else
+		} else if (n >= 5 && strcmp(tok[0], "resume-sha256") == 0)
+			RESUME(SHA256_CTX, 8, c->count = c0, c->count, SHA256_Update, SHA256_Final, 32);
+		else if (n >= 5 && strcmp(tok[0], "resume-sha1") == 0)
+			RESUME(SHA1_CTX, 5, (c->count[0] = (uint32_t)c0, c->count[1] = (uint32_t)c1),
+			    ((uint64_t)c->count[0] << 32) | c->count[1], SHA1_Update, SHA1_Final, 20);
+		else if (n >= 5 && strcmp(tok[0], "resume-md5") == 0)
+			RESUME(MD5_CTX, 4, (c->count[0] = (uint32_t)c0, c->count[1] = (uint32_t)c1),
+			    ((uint64_t)c->count[1] << 32) | c->count[0], MD5_Update, MD5_Final, 16);
+		else
 			printf("bad-case\n");
 	}
 	free(tok);
